@@ -214,7 +214,7 @@ func portIndexer(y any, p tree.Path) (string, error) {
 		if !ok {
 			protocol = "tcp"
 		}
-		return fmt.Sprintf("%s:%s:%d/%s", host, published, target, protocol), nil
+		return fmt.Sprintf("%v:%v:%v/%v", host, published, target, protocol), nil
 	case string:
 		return value, nil
 	}
